@@ -84,6 +84,10 @@ def run(ctx, R):
                      'C15.D: Display echoes the text. Rests on the token-layout axiom of str::splitn.')
     protocol_table(ctx, R)
     inv1_premises(ctx, R)
+    # headers obtained through FromStr are the try_from(&str) header, copied (C16.F / C16.O)
+    from rules import C16 as C16mod
+    C16mod.fromstr_delegation(ctx, R, 'C15.F')
+    C16mod.owned_copies(ctx, R, rule='C15.O', only=['v1::model::Header'])
     p = ctx.method(H1, 'addresses_str')
     if p:
         s = P(ctx, p, 0)
